@@ -24,7 +24,8 @@ Kd(r, c) == IF r.cols[c].unit THEN r.cols[c].Kd
 Tangent(r) ==
   \A c \in 1..Len(r.cols) : LET kd == Kd(r, c) IN
     \A i \in 1..r.n :
-       Abs(45 * r.cols[c].D1[i] - 9 * r.cols[c].D2[i] + r.cols[c].D3[i] - 15 * kd[i]) <= TolT(15 * kd[i])
+       \* 45 D1 - 9 D2 + D3 - 15 K d, arranged so that no intermediate exceeds ~30 |D1| (32-bit: stiff items reach |D1| ~ 5e7)
+       Abs(9 * (5 * r.cols[c].D1[i] - r.cols[c].D2[i]) + (r.cols[c].D3[i] - 15 * kd[i])) <= TolT(15 * kd[i])
 SymmetricTangent(r) ==
   r.symmetric => \A i \in 1..r.n : \A j \in (i + 1)..r.n :
      Abs(r.K[(i - 1) * r.n + j] - r.K[(j - 1) * r.n + i]) <= 2 + Abs(r.K[(i - 1) * r.n + j]) \div 65536
